@@ -362,6 +362,50 @@ def rule_r6(ctx) -> RuleResult:
     return rr
 
 
+def rule_r7(ctx) -> RuleResult:
+    """The limit an invocation runs under is the one given to *this* expand() call: the value
+    reaching `lua_invoke` is the `timeout` parameter of call_lua_sandbox, which receives the
+    `timeout` parameter of Wtp.expand, and neither function rebinds it (in particular not from a
+    context attribute, which would let a short limit of an earlier call cut off later, legitimate
+    invocations on the same context)."""
+    rr = RuleResult("C07.R7", "the time limit of an invocation is the parameter of the enclosing expand() call, never stored state", min_instances=3)
+    ex = ctx.fn("core.Wtp.expand")
+    cls = ctx.fn("luaexec.call_lua_sandbox")
+    for dotted, fn, rel in (("core.Wtp.expand", ex, "src/wikitextprocessor/core.py"),
+                            ("luaexec.call_lua_sandbox", cls, "src/wikitextprocessor/luaexec.py")):
+        params = {a.arg for a in fn.args.args + fn.args.kwonlyargs}
+        if "timeout" not in params:
+            raise AnalysisError("{}: parameter `timeout` vanished".format(dotted))
+        stores = [n for n in ast.walk(fn) if isinstance(n, ast.Name) and n.id == "timeout" and isinstance(n.ctx, (ast.Store, ast.Del))]
+        if stores:
+            for n in stores:
+                rr.bad(Finding("C07.R7", rel, dotted, "timeout = ... (line {})".format(n.lineno),
+                               "the time limit is rebound inside {}: the limit of an invocation no longer is the one passed to this call".format(dotted),
+                               n.lineno))
+        else:
+            rr.ok(dotted, "`timeout` is never rebound", {"fn": dotted})
+    calls = [c for c in ast.walk(ex) if isinstance(c, ast.Call) and unparse(c.func) == "call_lua_sandbox"]
+    if not calls:
+        raise AnalysisError("expand: call of call_lua_sandbox vanished")
+    for c in calls:
+        args = [unparse(a) for a in c.args] + [unparse(k.value) for k in c.keywords if k.arg == "timeout"]
+        if "timeout" in args[4:] or any(k.arg == "timeout" and unparse(k.value) == "timeout" for k in c.keywords):
+            rr.ok("core.Wtp.expand", unparse(c)[:70], {"passes": "timeout"})
+        else:
+            rr.bad(Finding("C07.R7", "src/wikitextprocessor/core.py", "core.Wtp.expand", unparse(c)[:80],
+                           "call_lua_sandbox is not given expand()'s own timeout parameter", c.lineno))
+    inv = [c for c in ast.walk(cls) if isinstance(c, ast.Call) and unparse(c.func).endswith("lua_invoke")]
+    if not inv:
+        raise AnalysisError("call_lua_sandbox: lua_invoke call vanished")
+    for c in inv:
+        if c.args and unparse(c.args[-1]) == "timeout":
+            rr.ok("luaexec.call_lua_sandbox", "lua_invoke(..., timeout)")
+        else:
+            rr.bad(Finding("C07.R7", "src/wikitextprocessor/luaexec.py", "luaexec.call_lua_sandbox", unparse(c)[:80],
+                           "lua_invoke is not given call_lua_sandbox's own timeout parameter", c.lineno))
+    return rr
+
+
 def run(ctx) -> list:
     marker = _marker(ctx)
-    return [rule_r1(ctx), rule_r2(ctx, marker), rule_r3(ctx), rule_r4(ctx, marker), rule_r5(ctx, marker), rule_r6(ctx)]
+    return [rule_r1(ctx), rule_r2(ctx, marker), rule_r3(ctx), rule_r4(ctx, marker), rule_r5(ctx, marker), rule_r6(ctx), rule_r7(ctx)]
